@@ -34,7 +34,7 @@ pub fn boundary_cases() -> Vec<Vec<Entry>> {
                     es.push(Entry::Format(4, dp));
                     es.push(Entry::Format(2, dp));
                 }
-                es.push(Entry::Txn(Txn { date: 10, posts: vec![post(0, Some(lit(m1, s1, 4))), post(1, Some(lit(m2, s2, 2)))] }));
+                es.push(Entry::Txn(Txn { effective: None, date: 10, posts: vec![post(0, Some(lit(m1, s1, 4))), post(1, Some(lit(m2, s2, 2)))] }));
                 out.push(es);
             }
         }
@@ -46,7 +46,7 @@ pub fn boundary_cases() -> Vec<Vec<Entry>> {
             if let Some(dp) = fmt {
                 es.push(Entry::Format(4, dp));
             }
-            es.push(Entry::Txn(Txn { date: 10, posts: vec![post(0, Some(lit(1000, 2, 4))), post(1, Some(lit(-1000 + m1 * if s1 == 0 { 100 } else { 1 }, if s1 == 0 { 2 } else { 3 }, 4)))] }));
+            es.push(Entry::Txn(Txn { effective: None, date: 10, posts: vec![post(0, Some(lit(1000, 2, 4))), post(1, Some(lit(-1000 + m1 * if s1 == 0 { 100 } else { 1 }, if s1 == 0 { 2 } else { 3 }, 4)))] }));
             out.push(es);
         }
     }
@@ -54,7 +54,7 @@ pub fn boundary_cases() -> Vec<Vec<Entry>> {
     for a in [0i64, 5, -5] {
         for b in [0i64, 5, -5] {
             for c in [0i64, 7, -7] {
-                out.push(vec![Entry::Txn(Txn { date: 10, posts: vec![post(0, Some(lit(a, 0, 4))), post(1, Some(lit(b, 0, 2))), post(2, Some(lit(c, 0, 1)))] })]);
+                out.push(vec![Entry::Txn(Txn { effective: None, date: 10, posts: vec![post(0, Some(lit(a, 0, 4))), post(1, Some(lit(b, 0, 2))), post(2, Some(lit(c, 0, 1)))] })]);
             }
         }
     }
@@ -65,10 +65,10 @@ pub fn boundary_cases() -> Vec<Vec<Entry>> {
                 let x = if total { Exch::Total(lit(cm, 0, 2)) } else { Exch::Rate(lit(cm, 0, 2)) };
                 let mut p = post(0, Some(lit(m, 0, 4)));
                 p.cost = Some(x.clone());
-                out.push(vec![Entry::Txn(Txn { date: 10, posts: vec![p.clone(), post(1, None)] })]);
+                out.push(vec![Entry::Txn(Txn { effective: None, date: 10, posts: vec![p.clone(), post(1, None)] })]);
                 let mut q = post(0, Some(lit(m, 0, 4)));
                 q.lot = Some(x);
-                out.push(vec![Entry::Txn(Txn { date: 10, posts: vec![q, post(1, Some(lit(-m * cm, 0, 2)))] })]);
+                out.push(vec![Entry::Txn(Txn { effective: None, date: 10, posts: vec![q, post(1, Some(lit(-m * cm, 0, 2)))] })]);
             }
         }
     }
@@ -80,7 +80,7 @@ pub fn boundary_cases() -> Vec<Vec<Entry>> {
         (1, 12, 4_000_000_000_000, 0),
     ] {
         for (sg1, sg2) in [(1i64, 1i64), (1, -1), (-1, 1), (-1, -1)] {
-            out.push(vec![Entry::Txn(Txn { date: 10, posts: vec![post(0, Some(lit(sg1 * m1, s1, 4))), post(1, Some(lit(sg2 * m2, s2, 2)))] })]);
+            out.push(vec![Entry::Txn(Txn { effective: None, date: 10, posts: vec![post(0, Some(lit(sg1 * m1, s1, 4))), post(1, Some(lit(sg2 * m2, s2, 2)))] })]);
         }
     }
     // multi-commodity cost expression
@@ -92,7 +92,7 @@ pub fn boundary_cases() -> Vec<Vec<Entry>> {
         )));
         let mut p = post(0, Some(lit(1, 0, 0)));
         p.cost = Some(Exch::Rate(cost));
-        out.push(vec![Entry::Txn(Txn { date: 10, posts: vec![p, post(1, None)] })]);
+        out.push(vec![Entry::Txn(Txn { effective: None, date: 10, posts: vec![p, post(1, None)] })]);
     }
     out
 }
